@@ -239,12 +239,14 @@ impl ArrayImpl {
         /// Converts a SQL LIKE pattern to a regex pattern.
         fn like_to_regex(pattern: &str) -> String {
             let mut regex = String::with_capacity(pattern.len());
-            regex.push('^');
+            // `(?s)`: `%` and `_` also match a line break
+            regex.push_str("(?s)^");
             for c in pattern.chars() {
                 match c {
                     '%' => regex.push_str(".*"),
                     '_' => regex.push('.'),
-                    c => regex.push(c),
+                    // every other character stands for itself, also `.`, `(`, `[`, `*` ...
+                    c => regex.push_str(&::regex::escape(c.encode_utf8(&mut [0; 4]))),
                 }
             }
             regex.push('$');
